@@ -1269,12 +1269,16 @@ class Index:
         try:
             sha1_reader = SHA1Reader(f)
             entries, version, extensions = read_index_dict_with_version(sha1_reader)
+            # Extensions have already been read by read_index_dict_with_version.
+            # Verify the checksum before anything of the file is taken over:
+            # if it does not match, this object must not be left holding the
+            # entries of a damaged file (a later write() would turn them into
+            # a file that verifies).
+            sha1_reader.check_sha(allow_empty=True)
             self._version = version
             self.update(entries)
             # (after update(): changing entries forgets the cached extensions)
             self._extensions = extensions
-            # Extensions have already been read by read_index_dict_with_version
-            sha1_reader.check_sha(allow_empty=True)
         finally:
             f.close()
 
